@@ -764,6 +764,52 @@ def run_inputs(ctx, model, files, cases):
                         "impl": "accepted" if accepted else impl, "documented": bool(doc_user)}, limit=8)
 
 
+def run_rewritten_files(ctx, model, files, rng):
+    """The same PATHS, checked earlier in this process, now hold rasters of another size: the checks must look at the
+    files as they are now (a verdict remembered per path would accept malformed sections and refuse well-formed ones).
+    The model receives the file-system facts re-read after each rewriting."""
+    r, c = 4, 5
+
+    def rewrite(name, arr, dtype="float32"):
+        files.write(name, arr, dtype=dtype)
+        files.facts.pop(files.p[name], None)
+
+    def batch(tag, n=6):
+        cases = []
+        for form in ("interval", "grid", "gridgrid"):
+            for _ in range(n):
+                cases.append({"kind": "rewritten-" + tag + "-" + form, "user": {"input": base_input(files, form, rng)}})
+        run_inputs(ctx, model, files, cases)
+        ctx.count("rewritten_file_sections", len(cases))
+
+    # 1. the right images become one column wider: every section is malformed now
+    rewrite("r.tif", np.zeros((r, c + 1), dtype=np.float32))
+    rewrite("r3.tif", np.zeros((3, r, c + 1), dtype=np.float32))
+    batch("right_wider")
+    # 2. the left images, masks, classif, segm and grids follow: well-formed again, at the new size
+    ramp = np.arange(r * (c + 1), dtype=np.float32).reshape(r, c + 1)
+    rewrite("l.tif", ramp)
+    rewrite("l3.tif", np.stack([ramp, ramp + 1, ramp + 2]))
+    for g, lo, hi in (("g_ok.tif", -2.0, 2.0), ("g_eq.tif", 1.0, 1.0), ("g_right.tif", -2.0, 2.0)):
+        rewrite(g, np.stack([np.full((r, c + 1), lo), np.full((r, c + 1), hi)]))
+    rewrite("m_ok.tif", np.zeros((r, c + 1)), dtype="int16")
+    rewrite("c_ok.tif", np.zeros((2, r, c + 1)), dtype="int16")
+    rewrite("s_ok.tif", np.ones((r, c + 1)), dtype="int16")
+    batch("all_wider")
+    # 3. back to the original rasters (the streams that follow use them)
+    ramp = np.arange(r * c, dtype=np.float32).reshape(r, c)
+    rewrite("l.tif", ramp)
+    rewrite("r.tif", ramp + 1)
+    rewrite("l3.tif", np.stack([ramp, ramp + 1, ramp + 2]))
+    rewrite("r3.tif", np.stack([ramp, ramp + 1, ramp + 2]))
+    for g, lo, hi in (("g_ok.tif", -2.0, 2.0), ("g_eq.tif", 1.0, 1.0), ("g_right.tif", -2.0, 2.0)):
+        rewrite(g, np.stack([np.full((r, c), lo), np.full((r, c), hi)]))
+    rewrite("m_ok.tif", np.zeros((r, c)), dtype="int16")
+    rewrite("c_ok.tif", np.zeros((2, r, c)), dtype="int16")
+    rewrite("s_ok.tif", np.ones((r, c)), dtype="int16")
+    batch("restored", n=3)
+
+
 def run_conf_inputs(ctx, model, files, rng):
     """check_input_section(get_config_input(user_cfg)): what check_conf does first (fid 6)"""
     from pandora import check_configuration as cc
@@ -874,6 +920,10 @@ def run(ctx):
         if rp is not None:
             if rp["stream"] == "dataset":
                 run_datasets(ctx, model, [rp["case"]])
+            elif rp["stream"] == "input" and str(rp["case"].get("kind", "")).startswith("rewritten-"):
+                # the failing section needs its history: the paths checked once, then rewritten at another size
+                run_inputs(ctx, model, files, gen_input_cases(files, rng, 0))
+                run_rewritten_files(ctx, model, files, rng)
             elif rp["stream"] == "input":
                 run_inputs(ctx, model, files, [{"kind": rp["case"]["kind"], "what": rp["case"].get("what"),
                                                 "user": jsonwire.unshow(files.unsym(rp["case"]["user"]))}])
@@ -891,6 +941,7 @@ def run(ctx):
                 in_cases += gen_input_cases(files, rng, 0)
         run_inputs(ctx, model, files, in_cases)
         run_conf_inputs(ctx, model, files, rng)
+        run_rewritten_files(ctx, model, files, rng)
         run_main_cases(ctx, files)
         ctx.stats["rasters_written"] = len(files.p)
     finally:
